@@ -35,6 +35,29 @@ func (o embOutcome) String() string {
 	return fmt.Sprintf("value %s error %q output %q", clipS(o.val), o.err, clipS(o.out))
 }
 
+// overBudget runs pre + stmts on the reference first and reports whether it gave
+// up on its step or value-size budget (a generated loop that doubles a string is
+// cheap in steps and unbounded in memory): such cases are skipped and counted.
+func overBudget(pre, stmts []string) bool {
+	rf := ref.New()
+	for _, group := range [][]string{pre, stmts} {
+		for _, st := range group {
+			rr, perr := rf.RunStmt(strings.TrimPrefix(st, "\x01"))
+			if perr != nil {
+				return false
+			}
+			if rr.Lim {
+				return true
+			}
+			if rr.Amb != "" || rr.Exit {
+				// the reference stopped half way; its budget says nothing about the rest
+				return false
+			}
+		}
+	}
+	return false
+}
+
 // runEmbedding runs pre + stmts on a fresh session; the outcome is that of stmts.
 func runEmbedding(pre, stmts []string) (o embOutcome, internal string) {
 	s := run.NewSession()
@@ -168,6 +191,9 @@ func embeddings(c c12Case) (value, discard map[string][]string) {
 // and the number of placements compared.
 func c12Check(c c12Case) (why string, ran int, skip string) {
 	value, discard := embeddings(c)
+	if overBudget(c.Pre, value["plain"]) {
+		return "", 0, "reference budget"
+	}
 	base, internal := runEmbedding(c.Pre, value["plain"])
 	if internal != "" {
 		return "", 0, internal
@@ -339,6 +365,9 @@ func sameOutcome(a, b embOutcome, label string) bool {
 
 func pairCheck(pre []string, groups [][][]string, label string) (string, string) {
 	var base embOutcome
+	if len(groups) > 0 && overBudget(pre, groups[0][0]) {
+		return "", "reference budget"
+	}
 	for i, grp := range groups {
 		got, internal := runEmbedding(pre, grp[0])
 		if internal != "" {
